@@ -110,10 +110,10 @@ func runC13(e *Env) {
 	r.Count("policy entry points (their policy-typed parameters are caller-owned)", nPolicy)
 	r.Count("functions reachable from the roots", len(a.Funcs))
 	r.Count("stores and map updates classified", a.NStores)
-	r.Floor("E5(roots)", len(roots), 25)
-	r.Floor("E5(policy roots)", nPolicy, 5)
-	r.Floor("E5(reachable functions)", len(a.Funcs), 35)
-	r.Floor("E5(stores classified)", a.NStores, 25)
+	r.Floor("E5(roots)", len(roots), 10)
+	r.Floor("E5(policy roots)", nPolicy, 3)
+	r.Floor("E5(reachable functions)", len(a.Funcs), 15)
+	r.Floor("E5(stores classified)", a.NStores, 10)
 
 	// ---- writes
 	type wkey struct{ rule, key string }
@@ -202,7 +202,7 @@ func runC13(e *Env) {
 		}
 	}
 	r.Count("ranges over maps classified", nRanges)
-	r.Floor("E5.maporder(map ranges)", nRanges, 3)
+	r.Floor("E5.maporder(map ranges)", nRanges, 1)
 
 	// ---- no concurrency constructs
 	nConc := 0
